@@ -24,7 +24,7 @@ type ScatterCase struct {
 
 func genScatter(t *rapid.T) ScatterCase {
 	c := ScatterCase{
-		Length:      rapid.IntRange(1, 200).Draw(t, "length"),
+		Length: rapid.IntRange(1, 200).Draw(t, "length"),
 	}
 	if rapid.IntRange(0, 7).Draw(t, "defaultConcurrency") == 0 {
 		c.Concurrency = rapid.IntRange(-1, 0).Draw(t, "nonPositive")
